@@ -33,6 +33,10 @@ pub struct Profile {
     pub repeat_pct: usize,
     /// sources that are symbolic links to files elsewhere
     pub symlink_pct: usize,
+    /// histories in which a command includes a generated file it has no ordering path to.  n2's behaviour is then
+    /// deliberately loose (it may report `used generated file ... but has no dependency path`), so only the
+    /// closure oracle (no step outside the requested closure runs) is evaluated for such a history.
+    pub hazard_pct: usize,
 }
 
 pub const EDIT_NAMES: [&str; 14] = [
@@ -57,6 +61,7 @@ impl Default for Profile {
             min_rounds: 1,
             repeat_pct: 15,
             symlink_pct: 10,
+            hazard_pct: 0,
         }
     }
 }
@@ -136,7 +141,7 @@ pub fn invoke_forced(world: World, spec: InvSpec, tape: OwnedTape, forced: Optio
         args.extend(["-d", "ninja_compat", "-t", "restat"].iter().map(|s| s.to_string()));
     }
     for (i, t) in spec.targets.iter().enumerate() {
-        args.push(respell(t, spec.spell + i));
+        args.push(respell_target(t, spec.spell + i));
     }
     let fault = spec.db_fault;
     let mut shared = Shared::new(world, spec, tape);
@@ -559,7 +564,7 @@ pub fn gen_spec(t: &mut Tape, world: &World, prof: &Profile) -> InvSpec {
             }
         }
     }
-    let spell = t.below(4);
+    let spell = t.below(6);
     let mut faults = BTreeMap::new();
     if t.chance(prof.fault_pct) {
         let all: Vec<usize> = current(world).steps.iter().chain(&proj.steps).filter(|s| !s.phony).map(|s| s.uid).collect();
@@ -960,6 +965,21 @@ pub fn run_history_x(case: &Case, prof: &Profile, dir: &Path, opts: &HistOpts) -
             world.includes.insert(s.uid, inc);
         }
     }
+    let hazard = prof.hazard_pct > 0 && mt.chance(prof.hazard_pct);
+    if hazard {
+        // one step includes a generated file of an unrelated step
+        let steps = world.disk.steps.clone();
+        for s in steps.iter().filter(|s| s.deps != 0) {
+            let anc = world.disk.ancestors(s.uid);
+            let cand: Vec<String> = steps.iter().filter(|p| !p.phony && !p.regen && p.uid != s.uid && !anc.contains(&p.uid) && !world.disk.ancestors(p.uid).contains(&s.uid)).flat_map(|p| p.outs.clone()).collect();
+            if !cand.is_empty() {
+                let f = cand[mt.below(cand.len())].clone();
+                world.includes.entry(s.uid).or_default().push(f);
+                stats.classes.insert("hazard:includes-unreachable-generated-file".into());
+                break;
+            }
+        }
+    }
     world.write_manifest();
     let mut trace: Vec<Value> = vec![];
     let mut viols: Vec<Viol> = vec![];
@@ -1105,6 +1125,9 @@ pub fn run_history_x(case: &Case, prof: &Profile, dir: &Path, opts: &HistOpts) -
             prev_clean = if all_clean { Some(wanted) } else { None };
         } else {
             prev_clean = None;
+        }
+        if hazard {
+            v.retain(|x| x.key == "outside-closure" || x.key.starts_with("panic@"));
         }
         let stop = v.iter().any(|x| x.prop == focus && !crate::engine::is_known(known, x)) || matches!(res_kind, 2);
         viols.append(&mut v);
